@@ -8,7 +8,7 @@
     [own_controls l] = what the generator itself emits as control lines for a document line (the
     line of a [Control] element, one [.br] per [LineBreak]).  All strings are arbitrary byte lists. *)
 From ClapModel Require Import Base.Bytes Gen.RoffTables Gen.ManTables.
-From ClapModel Require Import Man.RoffModel Man.RoffProofs Man.ManModel Man.ManProofs.
+From ClapModel Require Import Man.RoffModel Man.RoffProofs Man.ManModel Man.ManProofs Man.ManInvariance.
 Open Scope N_scope.
 
 (* The roff crate: after escape_leading_cc nothing that follows a newline starts with a control
@@ -37,24 +37,37 @@ Theorem C19_text_never_control : forall (m : mman) (d : roff),
 Proof. exact page_control_lines. Qed.
 Print Assumptions C19_text_never_control.
 
-(* Full statement aimed at (DESIGN 5, C19_controls_fixed), NOT proved in Coq -- covered on every run by
-   the direct oracle (the same tree rendered with innocuous text has the same control lines):
-
-     forall sigma, (forall s, map is_blank (lines (sigma s)) = map is_blank (lines s)) ->
-     forall m, controls (man_doc (map_text sigma m)) = controls (man_doc m)
-
-   where [map_text sigma] applies sigma to every text-only slot (about, help, after-help, author,
-   long version, option/value/possible-value names, defaults, env, subcommand names and abouts) and
-   [controls] is [flat_map own_controls] under [Ok].  What is proved: by C19_text_never_control the
-   control lines of the page are EXACTLY the generator's own elements, and (below) every control
-   element is .TH/.SH -- author text in the arguments, confined to that one line -- or one of
-   PP, TP, RS, RS 14, RE, IP \(bu 2 verbatim.  Missing: that the NUMBER and ORDER of these
-   elements depend on the text-only slots through the blank-line pattern of the description only. *)
-Theorem C19_controls_fixed_partial : forall (m : mman) (d : roff) name args,
+(* The control lines are fixed by the generator, part 1: every control element of a generated
+   document is .TH/.SH -- author text in the arguments, confined to that one line -- or one of
+   PP, TP, RS, RS 14, RE, IP \(bu 2 verbatim. *)
+Theorem C19_requests_fixed : forall (m : mman) (d : roff) name args,
   man_doc m = Ok d -> In (Control name args) d ->
   ctl_fixed name args = true /\ ctl_clean name args = true.
 Proof. exact man_doc_requests. Qed.
-Print Assumptions C19_controls_fixed_partial.
+Print Assumptions C19_requests_fixed.
+
+(* The control lines are fixed by the generator, part 2: they are a function of the command's
+   structure.  [map_man sigma] rewrites EVERY text-only slot (bin name, long version, author, about,
+   long about, after-help, option ids / shorts / longs / value names / help / long help / defaults /
+   env / possible values and their help, subcommand names and abouts, subcommand value name) with an
+   arbitrary function sigma; the slots that reach .TH/.SH arguments (name, display name, version,
+   help headings, subcommand heading, Man overrides) are kept.  If sigma keeps the blank-line pattern
+   (which lines of a text are blank: the description emits .PP for those), the control lines of the
+   page are unchanged.  [evil_blank]: prefixing every non-blank one-line text with ".so " is such a
+   sigma. *)
+Theorem C19_controls_fixed : forall sigma : bytes -> bytes,
+  (forall s, map is_blank (lines (sigma s)) = map is_blank (lines s)) ->
+  forall (m : mman) (d d' : roff),
+  man_doc m = Ok d -> man_doc (map_man sigma m) = Ok d' ->
+  control_lines (to_writer d') = control_lines (to_writer d).
+Proof. exact page_controls_invariant. Qed.
+Print Assumptions C19_controls_fixed.
+
+(* User text stays text: reading the crate's escapes back (backslash-backslash, backslash-dash, the
+   apostrophe string) returns the author's string -- no backslash of the author starts an escape. *)
+Theorem C19_escape_read_back : forall s, read_text (escape_apostrophes (escape_inline s)) = s.
+Proof. exact escape_read_back. Qed.
+Print Assumptions C19_escape_read_back.
 
 (* Totality, and the page of Man::new(cmd) with any builder overrides: no expect/unwrap is reached
    and the control lines are the generator's own. *)
